@@ -112,7 +112,8 @@ class FPFormat:
         class QuantiseBackward(torch.autograd.Function):
             @staticmethod
             def forward(ctx: torch.autograd.function.FunctionCtx, x: Tensor) -> Tensor:
-                return x
+                # Clone, so that the output may be modified in-place (e.g. `y += skip`)
+                return x.clone()
 
             @staticmethod
             def backward(  # type:ignore[override]
